@@ -6,6 +6,8 @@
 -/
 import PurlModel.Purl
 import PurlModel.Ops
+import PurlModel.RustOrd
+import PurlModel.Serde
 import PurlModel.Generated.UnicodeData
 open Purl Purl.Generated
 
@@ -115,9 +117,9 @@ structure ShapeIO (τ ε : Type) where
   full : ε → String
   beq : GPurl τ → GPurl τ → Bool
 
-def beqS (a b : GPurl Str) : Bool := a.ty == b.ty && decide (a.parts = b.parts)
-def beqP (a b : GPurl PkgType) : Bool := decide (a.ty = b.ty) && decide (a.parts = b.parts)
-def beqC (a b : GPurl CowStr) : Bool := a.ty.2 == b.ty.2 && decide (a.parts = b.parts)
+def beqS (a b : GPurl Str) : Bool := rustEqPurl U (· == ·) a b
+def beqP (a b : GPurl PkgType) : Bool := rustEqPurl U (fun x y => decide (x = y)) a b
+def beqC (a b : GPurl CowStr) : Bool := rustEqPurl U (fun x y => x.2 == y.2) a b
 
 def ioS : ShapeIO Str PErr := ⟨parseS U, buildS U, id, PErr.full, beqS⟩
 def ioM : ShapeIO Str PErr := ⟨parseM U, buildM U, id, PErr.full, beqS⟩
@@ -284,24 +286,10 @@ def opQuals (script : String) : M String := do
   let (outs, q) ← runQuals [] ops
   return " | ".intercalate (outs ++ ["q=" ++ showPairs q])
 
-def cmpPair (a b : Str × Str) : Ordering :=
-  match cmpStr a.1 b.1 with
-  | .eq => cmpStr a.2 b.2
-  | o => o
-
-def cmpQuals : Quals → Quals → Ordering
-  | [], [] => .eq
-  | [], _ :: _ => .lt
-  | _ :: _, [] => .gt
-  | a :: as, b :: bs =>
-    match cmpPair a b with
-    | .eq => cmpQuals as bs
-    | o => o
-
 def opQcmp (s1 s2 : String) : M String := do
   let (_, q1) ← runQuals [] (← parseQScript s1 ";" ":")
   let (_, q2) ← runQuals [] (← parseQScript s2 ";" ":")
-  let eq := decide (q1 = q2)
+  let eq := rustEqQuals U q1 q2
   let o := cmpQuals q1 q2
   return s!"eq={tf eq} ord={ordName o} pord={ordName o} heq={tf eq} same={tf eq}"
 
@@ -470,18 +458,6 @@ def valueOf {τ ε : Type} (io : ShapeIO τ ε) (mk : String → M τ) (src : St
       | .error _ => return none
   | _ => .error s!"BADREQ bad value source {src}"
 
-def cmpParts (a b : Parts) : Ordering :=
-  match cmpStr a.ns b.ns with
-  | .eq => match cmpStr a.name b.name with
-    | .eq => match cmpStr a.version b.version with
-      | .eq => match cmpQuals a.quals b.quals with
-        | .eq => cmpStr a.subpath b.subpath
-        | o => o
-      | o => o
-    | o => o
-  | o => o
-
-def pkgIndex (t : PkgType) : Nat := (PkgType.all.findIdx? (· == t)).getD 0
 
 def opCmp {τ ε : Type} (io : ShapeIO τ ε) (mk : String → M τ) (cmpTy : τ → τ → Ordering)
     (s1 s2 : String) : M String := do
@@ -491,18 +467,14 @@ def opCmp {τ ε : Type} (io : ShapeIO τ ε) (mk : String → M τ) (cmpTy : τ
   | some a, some b =>
     let sa ← displayM io.typeStr a
     let sb ← displayM io.typeStr b
-    let o := match cmpTy a.ty b.ty with
-      | .eq => cmpParts a.parts b.parts
-      | o => o
+    let o := cmpPurl cmpTy a b
     let ro := match o with | .lt => Ordering.gt | .gt => .lt | .eq => .eq
     let eq := io.beq a b
     return s!"eq={tf eq} ne={tf !eq} ord={ordName o} rord={ordName ro} pord={ordName o} heq={tf eq} seq={tf (sa == sb)} lt={tf (o == .lt)} le={tf (o != .gt)}"
   | _, _ => return "NOVALUE"
 
-def ordOf {τ ε : Type} (io : ShapeIO τ ε) (cmpTy : τ → τ → Ordering) (a b : GPurl τ) : Ordering :=
-  match cmpTy a.ty b.ty with
-  | .eq => cmpParts a.parts b.parts
-  | o => o
+def ordOf {τ ε : Type} (_io : ShapeIO τ ε) (cmpTy : τ → τ → Ordering) (a b : GPurl τ) : Ordering :=
+  cmpPurl cmpTy a b
 
 def opCmp3 {τ ε : Type} (io : ShapeIO τ ε) (mk : String → M τ) (cmpTy : τ → τ → Ordering)
     (s1 s2 s3 : String) : M String := do
@@ -621,10 +593,130 @@ def opShape (bitsTok : String) (rest : List String) : M String := do
       return pre ++ "b=" ++ (← famShow r log)
   | x => throw s!"BADREQ bad shape op {x}"
 
+/-! ### serde: serde_json's text layer (glue, not part of the model) -/
+
+def hex4 (n : Nat) : String :=
+  String.ofList [hexLowerDigit (n / 4096 % 16).toUInt8, hexLowerDigit (n / 256 % 16).toUInt8,
+    hexLowerDigit (n / 16 % 16).toUInt8, hexLowerDigit (n % 16).toUInt8]
+
+/-- `serde_json::to_string` of a string value -/
+def jsonQuote (s : Str) : Str :=
+  let body := s.flatMap fun c =>
+    if c == '"' then ['\\', '"']
+    else if c == '\\' then ['\\', '\\']
+    else if c.toNat == 8 then ['\\', 'b']
+    else if c.toNat == 12 then ['\\', 'f']
+    else if c == '\n' then ['\\', 'n']
+    else if c == '\r' then ['\\', 'r']
+    else if c == '\t' then ['\\', 't']
+    else if c.toNat < 32 then ('\\' :: 'u' :: (hex4 c.toNat).toList)
+    else [c]
+  '"' :: body ++ ['"']
+
+def isJsonWs (c : Char) : Bool := c == ' ' || c == '\n' || c == '\r' || c == '\t'
+
+def hexDigitVal (c : Char) : Option Nat :=
+  if '0' ≤ c ∧ c ≤ '9' then some (c.toNat - 48)
+  else if 'a' ≤ c ∧ c ≤ 'f' then some (c.toNat - 87)
+  else if 'A' ≤ c ∧ c ≤ 'F' then some (c.toNat - 55)
+  else none
+
+def hex4Val : List Char → Option (Nat × List Char)
+  | a :: b :: c :: d :: rest =>
+    match hexDigitVal a, hexDigitVal b, hexDigitVal c, hexDigitVal d with
+    | some w, some x, some y, some z => some (w * 4096 + x * 256 + y * 16 + z, rest)
+    | _, _, _, _ => none
+  | _ => none
+
+/-- body of a JSON string after the opening quote: (content, rest after the closing quote) -/
+partial def jsonStringBody (cs : List Char) (acc : List Char) : Option (Str × List Char) :=
+  match cs with
+  | [] => none
+  | '"' :: rest => some (acc.reverse, rest)
+  | '\\' :: e :: rest =>
+    match e with
+    | '"' => jsonStringBody rest ('"' :: acc)
+    | '\\' => jsonStringBody rest ('\\' :: acc)
+    | '/' => jsonStringBody rest ('/' :: acc)
+    | 'b' => jsonStringBody rest (Char.ofNat 8 :: acc)
+    | 'f' => jsonStringBody rest (Char.ofNat 12 :: acc)
+    | 'n' => jsonStringBody rest ('\n' :: acc)
+    | 'r' => jsonStringBody rest ('\r' :: acc)
+    | 't' => jsonStringBody rest ('\t' :: acc)
+    | 'u' =>
+      match hex4Val rest with
+      | none => none
+      | some (n, rest2) =>
+        if 0xD800 ≤ n ∧ n < 0xDC00 then
+          match rest2 with
+          | '\\' :: 'u' :: rest3 =>
+            match hex4Val rest3 with
+            | some (m, rest4) =>
+              if 0xDC00 ≤ m ∧ m < 0xE000 then
+                jsonStringBody rest4 (Char.ofNat (0x10000 + (n - 0xD800) * 1024 + (m - 0xDC00)) :: acc)
+              else none
+            | none => none
+          | _ => none
+        else if 0xDC00 ≤ n ∧ n < 0xE000 then none
+        else jsonStringBody rest2 (Char.ofNat n :: acc)
+    | _ => none
+  | c :: rest => if c.toNat < 32 then none else jsonStringBody rest (c :: acc)
+
+/-- the JSON documents the correspondence stream uses: a string, or recognisably something else -/
+def jsonDoc (doc : Str) : Option Json :=
+  match doc.dropWhile isJsonWs with
+  | '"' :: rest =>
+    match jsonStringBody rest [] with
+    | some (s, tail) => if tail.all isJsonWs then some (.str s) else none
+    | none => none
+  | _ => none   -- every other kind, and malformed text, ends in a serde error either way
+
+def opSerde (rest : List String) : M String := do
+  let shape ← argAt rest 0
+  match ← argAt rest 1 with
+  | "de" =>
+    let doc ← unh (← argAt rest 2)
+    let v := (jsonDoc doc).getD .null
+    match shape with
+    | "S" =>
+      match de (parseS U) v with
+      | .ok p => return "OK:" ++ showPurl id p
+      | .error (.panic _) => throw "PANIC"
+      | .error (.err _) => return "ERR:serde"
+    | "P" =>
+      match de (parseP U) v with
+      | .ok p => return "OK:" ++ showPurl PkgType.name p
+      | .error (.panic _) => throw "PANIC"
+      | .error (.err _) => return "ERR:serde"
+    | _ => return "NA"
+  | "ser" =>
+    let s ← unh (← argAt rest 2)
+    let go {τ ε : Type} (io : ShapeIO τ ε) : M String := do
+      match ← liftRes (io.parse s) with
+      | .error e => return io.full e
+      | .ok p =>
+        match ser io.typeStr p with
+        | .error _ => throw "PANIC"
+        | .ok (.str cs) =>
+          let j := jsonQuote cs
+          let back := match de io.parse (.str cs) with
+            | .ok q => "OK:" ++ showPurl io.typeStr q ++ ":" ++ tf (io.beq q p)
+            | .error _ => "ERR:serde"
+          return s!"OK:{showPurl io.typeStr p} json={hS j} isstr=T jstr={hS cs} s={hS cs} back={back}"
+        | .ok _ => return "OK:" ++ showPurl io.typeStr p ++ " isstr=F"
+    match shape with
+    | "S" => go ioS
+    | "P" => go ioP
+    | _ => return "NA"
+  | "pt" =>
+    let t ← mkPkg (← argAt rest 2)
+    return s!"json={hS (jsonQuote t.serdeName)} back=T"
+  | x => throw s!"BADREQ bad serde op {x}"
+
 /-! ### dispatch -/
 
 def cmpTyS (a b : Str) : Ordering := cmpStr a b
-def cmpTyP (a b : PkgType) : Ordering := compare (pkgIndex a) (pkgIndex b)
+def cmpTyP (a b : PkgType) : Ordering := cmpPkgType a b
 
 def dispatch (line : String) : M String := do
   let t := line.splitOn " "
@@ -662,6 +754,7 @@ def dispatch (line : String) : M String := do
   | ["comb", ident, s] => opComb ident (← unh s)
   | ["combp", s] => opCombp (← unh s)
   | "shape" :: bits :: rest => opShape bits rest
+  | "serde" :: rest => opSerde rest
   | x :: _ => throw s!"BADREQ unknown op {x}"
   | [] => throw "BADREQ empty"
 
